@@ -36,20 +36,22 @@ def body(c):
     progs = []
     r = tlc.run("MCConfigScope", cfg("gen3", "FramesB", 3, 3, True), workers=1, timeout=900, heap="6g"); c.add_tlc("ConfigScope-gen[L=3]", r)
     progs += tlc.printed_json(r)
-    r = tlc.run("MCConfigScope", cfg("sim", "FramesA", 4, 8 if c.quick else 10, True), simulate="num=%d" % (300 if c.quick else 4000), depth=14, seed=c.seed + 17, workers=1, timeout=900)
+    r = tlc.run("MCConfigScope", cfg("sim", "FramesA", 4, 6 if c.quick else 10, True), simulate="num=%d" % (200 if c.quick else 4000), depth=8 if c.quick else 14, seed=c.seed + 17, workers=1, timeout=900)
     c.add_tlc("ConfigScope-simulate[depth 4]", r)
     long = tlc.printed_json(r)
     c.extra["programs_exhaustive_L3"] = len(progs); c.extra["programs_simulated"] = len(long)
+    if len(long) > (300 if c.quick else 4000): long = rng.sample(long, 300 if c.quick else 4000)
     if c.quick and len(progs) > 900: progs = rng.sample(progs, 900)
     allp = progs + long
     # the same with a thread-based process-wide default backend (register_parallel_backend(..., make_default=True))
-    c.model_check("ConfigScope[thread-based default backend]", "MCConfigScope", cfg("mct", "FramesC", 3, 0, False, defb="thr"), workers=16, timeout=600)
-    r = tlc.run("MCConfigScope", cfg("simt", "FramesA", 4, 6 if c.quick else 8, True, defb="thr"), simulate="num=%d" % (150 if c.quick else 2000), depth=12, seed=c.seed + 19, workers=1, timeout=900)
+    c.model_check("ConfigScope[thread-based default backend]", "MCConfigScope", cfg("mct", "FramesC", 2 if c.quick else 3, 0, False, defb="thr"), workers=16, timeout=600)
+    r = tlc.run("MCConfigScope", cfg("simt", "FramesA", 4, 5 if c.quick else 8, True, defb="thr"), simulate="num=%d" % (100 if c.quick else 2000), depth=7 if c.quick else 12, seed=c.seed + 19, workers=1, timeout=900)
     c.add_tlc("ConfigScope-simulate[thread-based default]", r)
     pt = tlc.printed_json(r)
     r = tlc.run("MCConfigScope", cfg("gent", "FramesC", 2, 2, True, defb="thr"), workers=1, timeout=900, heap="6g"); c.add_tlc("ConfigScope-gen[thread-based default, L=2]", r)
     pt += tlc.printed_json(r)
     c.extra["programs_thread_default"] = len(pt)
+    if len(pt) > (400 if c.quick else 6000): pt = rng.sample(pt, 400 if c.quick else 6000)
     base = common.scratch("c17")
     nw = 14
     jobs = [(base, k, allp[k::nw]) for k in range(nw)] + [(base, nw + k, pt[k::4], "thr") for k in range(4)]
@@ -60,7 +62,7 @@ def body(c):
         ps = b_k_ps[2]
         for prog, r in zip(ps, res):
             c.evaluations += 1
-            acts = [[a["act"]["op"], a["act"]["t"]] + ([{kk: vv for kk, vv in a["act"]["f"].items() if vv != "U"}] if a["act"]["op"] == "enter" else [a["act"]["how"]]) for a in prog]
+            acts = [[a["act"]["op"], a["act"]["t"]] + ([{kk: vv for kk, vv in a["act"]["f"].items() if vv != "U"}] if a["act"]["op"] in ("enter", "fail_enter") else [a["act"]["how"]]) for a in prog]
             c.nontrivial.add(json.dumps(acts, sort_keys=True))
             for pb in r["problems"]:
                 key = {"default_backend": (b_k_ps[3] if len(b_k_ps) > 3 else "proc"), "setting": KEYN.get(pb.get("key"), pb.get("kind")), "thread_forced_to_threads": bool(pb.get("forced_threads")), "got": pb.get("got"), "program": acts, "step": pb.get("step"),
@@ -69,7 +71,7 @@ def body(c):
                             (acts[: (pb.get("step") or 0) + 1], pb.get("thread"), {kk: vv for kk, vv in (key["explicit"] or {}).items() if vv != "U"}, key["setting"], pb.get("got"), pb.get("want")), pb)
     c.traces_validated = c.evaluations
     for p in allp[:: max(1, len(allp) // 3)][:2]: c.sample([a["act"] for a in p])
-    c.rule = ("programs generated from ConfigScope.tla: every sequence of 3 enter/exit(return|exception) actions of 2 threads over 6 frames (exhaustive; sampled in quick), "
+    c.rule = ("programs generated from ConfigScope.tla: every sequence of 3 enter / failed-construction / exit(return|exception) actions of 2 threads over 6 frames (exhaustive; sampled in quick), "
               "TLC-simulated programs of 8-10 actions over 10 frames up to nesting depth 4; after EVERY action BOTH threads construct Parallel with 9 explicit-argument "
               "variants and the resolved backend kind, n_jobs, verbose, max_nbytes, mmap_mode, temp_folder (as received by a recording backend's configure) are "
               "compared with the specification; distinct = program")
